@@ -383,18 +383,79 @@ def oldFactsPre (asStr : Val F → String) : Facts F → List String
   | [] => []
   | (k, v) :: rest => k :: asStr v :: oldFactsPre asStr rest
 
-/-- the fragment of `ReteUlNode` the correspondence drives: alpha tests with `==` / `!=` against a
-literal (given with the value `parse_value_string` yields for it), `And`, `Or`, `Not`. -/
+/-- the comparison operators of the `count` multifield test (`">" "<" ">=" "<=" "==" "!="`; any
+other text is `false`) -/
+inductive CmpOp where
+  | gt | lt | ge | le | eq | ne | other
+deriving Repr, DecidableEq
+
+def CmpOp.eval : CmpOp → Int → Int → Bool
+  | .gt, a, b => decide (a > b)
+  | .lt, a, b => decide (a < b)
+  | .ge, a, b => decide (a ≥ b)
+  | .le, a, b => decide (a ≤ b)
+  | .eq, a, b => decide (a = b)
+  | .ne, a, b => decide (a ≠ b)
+  | .other, _, _ => false
+
+/-- the `UlMultiField` operations that look at the array only -/
+inductive MultiOp where
+  | empty | notEmpty | first | last | collect
+deriving Repr, DecidableEq
+
+/-- `str::contains(&str)`: `pat` occurs as a contiguous piece -/
+def isInfix (pat : List Char) : List Char → Bool
+  | [] => pat.isEmpty
+  | c :: cs => pat.isPrefixOf (c :: cs) || isInfix pat cs
+
+/-- `FactValue::contains` (operator `contains` of `FactValue::compare`): substring on two strings,
+membership by `==` on an array, `false` otherwise -/
+def Val.contains (o : FloatOps F) : Val F → Val F → Bool
+  | .str s, .str p => isInfix p.toList s.toList
+  | .arr xs, v => xs.any (fun x => Val.beq o x v)
+  | _, _ => false
+
+/-- the fragment of `ReteUlNode` the correspondence drives: alpha tests with `==` / `!=` / `contains`
+against a literal (given with the value `parse_value_string` yields for it) or another field, the
+array-only `UlMultiField` operations (`count` with or without a comparison, `empty`, `not_empty`,
+`first`, `last`, `collect`), `And`, `Or`, `Not`. -/
 inductive Node (F : Type) where
   | alpha (field : String) (ne : Bool) (lit : String) (litVal : Val F)
+  | contains (field : String) (lit : String) (litVal : Val F)
+  | count (field : String) (cmp : Option (CmpOp × Int))
+  | multi (field : String) (op : MultiOp)
   | and (a b : Node F)
   | or (a b : Node F)
   | not (a : Node F)
 deriving Repr
 
-/-- `evaluate_rete_ul_node_typed` on that fragment; `AlphaNode::matches_typed`: the expected value is
-the fact named by the literal if there is one (variable reference), else the parsed literal; a missing
-field is `false` for every operator. -/
+/-- `AlphaNode::matches_typed`: the expected value is the fact named by the literal if there is one
+(variable reference), else the parsed literal -/
+def expectedOf (fs : Facts F) (lit : String) (lv : Val F) : Val F :=
+  match fs.get lit with
+  | some w => w
+  | none => lv
+
+/-- the `count` branch of `UlMultiField` in `evaluate_rete_ul_node_typed`: only an array has a count;
+without operator/compare value the test is `count > 0` -/
+def evalCount (cmp : Option (CmpOp × Int)) : Option (Val F) → Bool
+  | some (.arr xs) =>
+    (match cmp with
+     | some (op, n) => op.eval (Int.ofNat xs.length) n
+     | none => decide (xs.length > 0))
+  | _ => false
+
+/-- the `empty` / `not_empty` / `first` / `last` / `collect` branches of `UlMultiField` -/
+def evalMulti : MultiOp → Option (Val F) → Bool
+  | .empty, some (.arr xs) => xs.isEmpty
+  | .empty, _ => true
+  | .collect, some (.arr _) => true
+  | .collect, _ => false
+  | _, some (.arr xs) => !xs.isEmpty
+  | _, _ => false
+
+/-- `evaluate_rete_ul_node_typed` on that fragment; for alpha nodes a missing field is `false` for
+every operator (`TypedFacts::evaluate_condition`). -/
 def evalNode (o : FloatOps F) : Node F → Facts F → Bool
   | .alpha φ ne lit lv, fs =>
     let expected := match fs.get lit with
@@ -403,6 +464,12 @@ def evalNode (o : FloatOps F) : Node F → Facts F → Bool
     match fs.get φ with
     | some fv => if ne then !(Val.beq o fv expected) else Val.beq o fv expected
     | none => false
+  | .contains φ lit lv, fs =>
+    (match fs.get φ with
+     | some fv => Val.contains o fv (expectedOf fs lit lv)
+     | none => false)
+  | .count φ cmp, fs => evalCount cmp (fs.get φ)
+  | .multi φ op, fs => evalMulti op (fs.get φ)
   | .and a b, fs => evalNode o a fs && evalNode o b fs
   | .or a b, fs => evalNode o a fs || evalNode o b fs
   | .not a, fs => !(evalNode o a fs)
